@@ -309,8 +309,10 @@ class BuildAssembly(Assembly):
                 # row from an OverlapResult
                 continue
 
+            # Scaffolds with the same name but different tags (e.g. a
+            # "Contaminant" piece cut out of a chromosome) must not be fused
             build_scffld = hap_name_scaffold.setdefault(
-                (scffld.haplotype, scffld.name),
+                (scffld.tag, scffld.haplotype, scffld.name),
                 Scaffold(
                     scffld.name,
                     tag=scffld.tag,
